@@ -54,6 +54,12 @@ func pickSize(r *Rng, lim GenLimits) int {
 func genKeys(r *Rng, lim GenLimits) ([][]byte, string) {
 	n := pickSize(r, lim)
 	kind := r.Intn(11)
+	if n > 20000 && (kind == 4 || kind == 9 || kind == 10) {
+		// long-key families: bound the total key volume (a 10^5-key set with
+		// 400-byte shared runs costs billions of steps per build and starves
+		// the rest of the tier)
+		n = 20000
+	}
 	set := map[string]bool{}
 	name := ""
 	switch kind {
@@ -244,7 +250,7 @@ func genVals(r *Rng, n int) []int64 {
 func genSpec(r *Rng, lim GenLimits) (TrieSpec, string) {
 	keys, name := genKeys(r, lim)
 	s := TrieSpec{Keys: keys, Opt: genOpt(r)}
-	w := []int{2, 2, 6, 3, 2, 2, 2, 3, 4, 3, 2, 2, 1, 1, 1}
+	w := []int{2, 2, 6, 3, 2, 2, 2, 3, 4, 3, 2, 2, 1, 1, 1, 2}
 	s.Enc = encKinds[r.WeightedPick(w)]
 	s.ValIDs = genVals(r, len(keys))
 	return s, name
